@@ -57,10 +57,12 @@ def build_harness():
     _built = True
 
 
-def harness(args, timeout=3600, stdout_path=None):
+def harness(args, timeout=3600, stdout_path=None, allow_crash=False):
     build_harness()
     rc, out = sh([BIN] + args, timeout=timeout, stdout_path=stdout_path)
     if rc != 0:
+        if allow_crash and rc < 0:
+            return rc          # killed by a signal (e.g. SIGABRT after an impossible allocation): data, not a tool error
         raise ToolError(f"harness {args[0]} exited {rc}: {(out or '')[-2000:]}")
     return out
 
